@@ -252,9 +252,9 @@ class Events(Monitor):
                         # the event function sees the derivative of the cubic interpolant: O(h^3) instead of O(h^4)
                         Lp_ = world.problem.lipschitz(k)
                         interp = interp * 0.0 + (0.01 * hmax ** 3 * world.problem.deriv4_scale(k) * float(np.max(np.abs(np.asarray(y, dtype=np.float64)))) * 4)
-                        tb_ = 10 * (E * Lp_ + interp) / max(slope, 1e-300) + 64 * eps * max(1.0, abs(te)) + 1e-14
+                        tb_ = 30 * (E * Lp_ + interp) / max(slope, 1e-300) + 64 * eps * max(1.0, abs(te)) + 1e-14
                     else:
-                        tb_ = 10 * (E + interp) / max(slope, 1e-300) + 64 * eps * max(1.0, abs(te)) + 1e-14
+                        tb_ = 30 * (E + interp) / max(slope, 1e-300) + 64 * eps * max(1.0, abs(te)) + 1e-14
                     d = abs(tr - te)
                     world.ratio("C07.near_true_root", d / tb_)
                     if d > tb_:
